@@ -493,7 +493,7 @@ def chain_family(r, tier):
 
 def shards(tier, seed):
     n = 8 if tier == "quick" else 32
-    return [("paths", spelling, k, n) for spelling in ("absolute", "relative", "package", "unicode", "handle404") for k in range(n)] + [("paths", "dotted", k, 2) for k in range(2)] + [("paths", "symlink", k, 2) for k in range(2)] + [("paths", "tilde", k, 2) for k in range(2)] + [("threads", "Files"), ("threads", "Pages"), ("chain",), ("layouts",)]
+    return [("paths", spelling, k, n) for spelling in ("absolute", "relative", "package", "unicode", "handle404") for k in range(n)] + [("paths", "dotted", k, 2) for k in range(2)] + [("paths", "symlink", k, 2) for k in range(2)] + [("paths", "tilde", k, 2) for k in range(2)] + [("threads", "Files"), ("threads", "Pages"), ("chain",), ("layouts",)] + [("python-O", ("paths", "absolute", 0, n)), ("python-O", ("paths", "relative", 1, n)), ("python-O", ("chain",)), ("python-O", ("layouts",))]
 
 
 def thread_family(r, kind, tier):
@@ -571,6 +571,10 @@ def layout_family(r, tier):
 
 def run_shard(desc, tier):
     r = R()
+    if desc[0] == "python-O":
+        # the same family in an interpreter that runs with assert statements compiled away
+        from ..core import fresh
+        return fresh.optimized(__name__, tuple(desc[1]), tier)
     if desc[0] == "layouts":
         layout_family(r, tier)
         return r
@@ -605,6 +609,10 @@ def finish(merged, tier):
 
 
 def replay(w):
+    import sys as _sys
+    if w.get("optimize") and not _sys.flags.optimize:
+        from ..core import fresh
+        return fresh.replay_optimized(__name__, w)
     if w.get("spelling") == "chain":
         r = R()
         chain_family(r, "quick")
